@@ -401,7 +401,14 @@ func hasVisitedScan(ci ssa.CallInstruction, list ssa.Value) bool {
 					if reaches(s, head) || s == head {
 						continue
 					}
-					if r, ok := s.Instrs[len(s.Instrs)-1].(*ssa.Return); ok && !mayReturnNilErr(r) {
+					rb := s
+					for hop := 0; hop < 3 && len(rb.Succs) == 1 && !reaches(rb.Succs[0], head); hop++ {
+						if _, isJ := rb.Instrs[len(rb.Instrs)-1].(*ssa.Jump); !isJ {
+							break
+						}
+						rb = rb.Succs[0] // the refusing exit shares its return block with other error exits
+					}
+					if r, ok := rb.Instrs[len(rb.Instrs)-1].(*ssa.Return); ok && !mayReturnNilErr(r) {
 						// when the scan decides by path containment (filepath.Rel of a list element against the
 						// value being entered), the refusing exit is the edge on which the ELEMENT was found
 						// inside that value — not the other way round, and not the complement
